@@ -80,7 +80,12 @@ for _n, (_mk, _sp, _props) in SEL.SELECTORS.items():
 def _register_function_raises(name):
     clsname = FN.STD[name][0]
 
-    @contract(f"FunctionExtension.evaluate[{name}]:raises", ("C06",), ["jsonpath.filter:FunctionExtension.evaluate", f"jsonpath.function_extensions.{name}:{clsname}.__call__"])
+    @contract(
+        f"FunctionExtension.evaluate[{name}]:raises",
+        ("C06",),
+        ["jsonpath.filter:FunctionExtension.evaluate", f"jsonpath.function_extensions.{name}:{clsname}.__call__"],
+        tier="thorough" if name in ("match", "search") else "quick",  # 2-3 minutes of string reasoning about the pattern argument
+    )
     def _c(ctx, name=name):
         ctxv = FN.ctx_inputs(ctx)
         cls = getattr(FN.fx, FN.STD[name][0])
